@@ -71,3 +71,15 @@ package server
 //@   assert-at call JSON : ghost_j == 0
 //@   assert-at return : ghost_j == 1
 //@   assert-at call JSON #1 : arg1 == 200 && r.Status == "success"
+
+// Non-stream consumers (the concatenating folds inside the handlers): every message received from the
+// channel is appended to the handler's own builder with exactly its text, and the text of the single
+// response is what that builder holds.
+//@ func (*Server).ChatHandler
+//@   assert-at call strings.(*Builder).WriteString : arg0 == &sb && arg1 == t.Message.Content
+//@   assert-at call strings.(*Builder).String : arg0 == &sb
+//@   assert-at call strings.(*Builder).Reset : false     -- nothing received is ever taken back
+//@ func (*Server).GenerateHandler
+//@   assert-at call strings.(*Builder).WriteString : arg0 == &sb && arg1 == t.Response
+//@   assert-at call strings.(*Builder).String : arg0 == &sb
+//@   assert-at call strings.(*Builder).Reset : false
